@@ -402,9 +402,10 @@ fn run_texts(jobs: Vec<String>, t0: Instant) {
                 engine = new_engine();
                 set_controller(&engine);
             }
-            "T" | "X" | "M" if f.len() >= 3 => {
+            "T" | "X" | "M" if f.len() >= 2 => {
                 let id = f[1];
-                let mut text = String::from_utf8_lossy(&unhex(f[2])).into_owned();
+                // (an empty text has an empty hex field)
+                let mut text = String::from_utf8_lossy(&unhex(f.get(2).copied().unwrap_or(""))).into_owned();
                 if f[0] == "M" {
                     // module mode: the text becomes a file and is evaluated as `(require "<file>")`, the way
                     // `steel file.scm` runs a program (module-level code takes other compiler / JIT paths)
